@@ -17,8 +17,11 @@
 //
 // Oracle: a functor handed to an FQ call never starts on the calling thread while that call is in progress.
 #include "mc_harness.h"
+#include "submit_stacknorm.h"
 #include <dispenso/task_set.h>
 #include <dispenso/thread_pool.h>
+
+SUBMIT_STACKNORM_INSTALL();
 
 namespace {
 constexpr int kMax = 32;
@@ -55,7 +58,7 @@ struct State {
     MC_CHECK(started[id].add(1) == 0, "functor %d started twice", id);
     bool dur = in_call[id].get() != 0;
     during[id].set(dur ? 1 : 2);
-    mc::cover(dur ? "functor_started_during_call_on_other_thread" : "functor_started_after_call");
+    mc::cover(dur ? "started_during_call_elsewhere" : "started_after_call");
     if (gate) {
       int who = id / 8;
       mc::block_until([&] { return gate_open[who].get() != 0; });
@@ -83,7 +86,7 @@ void note_load(dispenso::ThreadPool& pool, dispenso::TaskSetBase* ts, bool pool_
 
 template <class Set>
 void run_on_set(dispenso::ThreadPool& pool, Set& set, State& st, int who, const std::string& prog, bool pool_thread, const char* qname,
-                const char* bname) {
+                const char* bname, const char* qcover, const char* bcover) {
   for (size_t pc = 0; pc < prog.size(); pc++) {
     char op = prog[pc];
     note_load(pool, &set, pool_thread);
@@ -91,7 +94,7 @@ void run_on_set(dispenso::ThreadPool& pool, Set& set, State& st, int who, const 
       int id = st.fresh(who, 1);
       set.schedule([&st, id, qname] { st.body(id, qname); }, dispenso::ForceQueuingTag());
       st.done(id, 1);
-      mc::cover(qname);
+      mc::cover(qcover);
     } else if (op == 'B') {
       int k = prog[++pc] - '0';
       int base = st.fresh(who, k);
@@ -103,7 +106,7 @@ void run_on_set(dispenso::ThreadPool& pool, Set& set, State& st, int who, const 
           },
           dispenso::ForceQueuingTag());
       st.done(base, k);
-      mc::cover(bname);
+      mc::cover(bcover);
     }
   }
 }
@@ -115,7 +118,7 @@ void run_on_pool(dispenso::ThreadPool& pool, State& st, int who, const std::stri
     int id = st.fresh(who, 1);
     pool.schedule([&st, id] { st.body(id, "ThreadPool::schedule(f, FQ)"); }, dispenso::ForceQueuingTag());
     st.done(id, 1);
-    mc::cover("ThreadPool::schedule(f, FQ)");
+    mc::cover("fq_pool_schedule");
   }
 }
 
@@ -127,19 +130,21 @@ void caller_main(dispenso::ThreadPool& pool, dispenso::ConcurrentTaskSet* shared
     st.gate_open[who].set(1);
   } else if (api == "ts") {
     dispenso::TaskSet ts(pool, (ssize_t)smult);
-    run_on_set(pool, ts, st, who, prog, pool_thread, "TaskSet::schedule(f, FQ)", "TaskSet::scheduleBulk(n, gen, FQ)");
+    run_on_set(pool, ts, st, who, prog, pool_thread, "TaskSet::schedule(f, FQ)", "TaskSet::scheduleBulk(n, gen, FQ)", "fq_ts_schedule", "fq_ts_bulk");
     st.gate_open[who].set(1);
     ts.wait(); // may run the functors on this thread - after the calls returned, which is allowed
   } else {
     bool heavy = api == "ctsh";
     const char* qn = heavy ? "ConcurrentTaskSet<kHeavy>::schedule(f, FQ)" : "ConcurrentTaskSet<kLightweight>::schedule(f, FQ)";
     const char* bn = heavy ? "ConcurrentTaskSet<kHeavy>::scheduleBulk(n, gen, FQ)" : "ConcurrentTaskSet<kLightweight>::scheduleBulk(n, gen, FQ)";
+    const char* qc = heavy ? "fq_ctsh_schedule" : "fq_ctsl_schedule";
+    const char* bc = heavy ? "fq_ctsh_bulk" : "fq_ctsl_bulk";
     if (shared_cts) {
-      run_on_set(pool, *shared_cts, st, who, prog, pool_thread, qn, bn);
+      run_on_set(pool, *shared_cts, st, who, prog, pool_thread, qn, bn, qc, bc);
       st.gate_open[who].set(1);
     } else {
       dispenso::ConcurrentTaskSet cts(pool, heavy ? dispenso::TaskCost::kHeavy : dispenso::TaskCost::kLightweight, (ssize_t)smult);
-      run_on_set(pool, cts, st, who, prog, pool_thread, qn, bn);
+      run_on_set(pool, cts, st, who, prog, pool_thread, qn, bn, qc, bc);
       st.gate_open[who].set(1);
       cts.wait();
     }
@@ -153,6 +158,8 @@ MC_HARNESS(fq) {
   bool two = !t1.empty() && t1 != "-";
   State st;
   st.gate = P("gate", 1) != 0;
+  // ConcurrentTaskSet::scheduleBulk(.., FQ) from a pool thread enqueues without a producer token: see submit_stacknorm.h
+  submit_stacknorm::g_enabled = who0 == "pool" && (api == "ctsl" || api == "ctsh") && t0.find('B') != std::string::npos;
   MC_CHECK(n >= 1, "harness: C47 is stated for pools with at least one thread");
   {
     dispenso::ThreadPool pool((size_t)n, (size_t)mult);
